@@ -289,7 +289,9 @@ def spec_len(form, a, b):
         return [a // b] if b > 0 else None
     if form == "zip":
         return [a] if a == b else None
-    if form in ("eq", "partial_cmp", "cmp"):
+    if form in ("eq", "partial_cmp", "cmp", "eq_native", "eq_native_rev", "lt_native", "eq_native_ref"):
+        # comparing different lengths is a compile error, whatever the other operand is (the cross-type forms are
+        # generated for a != b only: the crate has no comparison with native arrays, and one for equal lengths would be harmless)
         return [] if a == b else None
     if form in ("from_tuple", "into_tuple"):
         return [a] if (a == b and 1 <= b <= 12) else None
@@ -333,6 +335,14 @@ def len_program(form, a, b, ann):
         return "pub fn f(x: %s, y: %s) { let r: GenericArray<u8, %s> = x.zip(y, |p, q| p ^ q); }" % (G(a), G(b), L)
     if form == "eq":
         return "pub fn f(x: %s, y: %s) -> bool { x == y }" % (G(a), G(b))
+    if form == "eq_native":
+        return "pub fn f(x: %s, y: [u8; %d]) -> bool { x == y }" % (G(a), b)
+    if form == "eq_native_rev":
+        return "pub fn f(x: [u8; %d], y: %s) -> bool { x == y }" % (b, G(a))
+    if form == "eq_native_ref":
+        return "pub fn f(x: &%s, y: &[u8; %d]) -> bool { *x == *y }" % (G(a), b)
+    if form == "lt_native":
+        return "pub fn f(x: %s, y: [u8; %d]) -> bool { x < y }" % (G(a), b)
     if form == "partial_cmp":
         return "pub fn f(x: %s, y: %s) -> bool { x.partial_cmp(&y).is_some() || x < y }" % (G(a), G(b))
     if form == "cmp":
@@ -517,12 +527,16 @@ FILL_TYS = {
     "unit": ("()", "()"),
     "u8": ("u8", "0u8"), "u64": ("u64", "0u64"), "b3": ("[u8; 3]", "[0u8; 3]"),
     "slot": ("Slot", "Slot { id: 7, wiped: false, secret: 0x1234 }"),
+    "p2": ("P2", "P2 { a: 0x11, b: 0x22 }"),
     "nest": ("GenericArray<Slot, U3>", None),
 }
 FILL_PRELUDE = """use const_default::ConstDefault;
 #[derive(Clone, Copy, Debug, PartialEq)]
 pub struct Slot { id: u32, wiped: bool, secret: u64 }
 impl ConstDefault for Slot { const DEFAULT: Self = Slot { id: 7, wiped: false, secret: 0x1234 }; }
+#[derive(Clone, Copy, Debug, PartialEq)]
+pub struct P2 { a: u8, b: u8 }
+impl ConstDefault for P2 { const DEFAULT: Self = P2 { a: 0x11, b: 0x22 }; }
 """
 
 
